@@ -105,6 +105,7 @@ type Frame struct {
 	cbRetTo    ssa.Value
 	cbResTypes []types.Type
 	cbCallee   string
+	cbEvent    int // index of the event of the call that runs the callback
 }
 
 type deferred struct {
